@@ -78,3 +78,14 @@ Print Assumptions C07_negative_vertex.
 Example C07_nonvacuous : INR 4 * (5 / 2) <= INR 11 - 1 < (INR 4 + 1) * (5 / 2).
 Proof. exact visits_example. Qed.
 Print Assumptions C07_nonvacuous.
+
+(* the same count holds inside the real run: after N epochs from the initial clocks, the clock of edge i of the
+   optimiser state equals p + (number of visits) * p with the number of visits given by C07_count — for every graph,
+   layout, parameter choice and interleaving with the other edges' updates *)
+Theorem C07_run_count : forall (a b gamma : R) mo nv (alpha0 : R) es i s (N : nat),
+  (i < length es)%nat -> length (s_next RNum s) = length es ->
+  let p := e_eps RNum (nth i es (mkEdge RNum 0 0 0 0)) in
+  nth i (s_next RNum s) 0 = p ->
+  nth i (s_next RNum (run_from RNum a b gamma alpha0 mo nv (Z.of_nat N) es N 0 s)) 0 = p + INR (visits RNum p N 0 p) * p.
+Proof. exact run_visits. Qed.
+Print Assumptions C07_run_count.
